@@ -143,6 +143,23 @@ CLAIMED = {
           "per block here. Quantisation formula itself is C09's."),
     technique="TLA+ model (TLC exhaustive) + spec-generated configurations replayed on the implementation with wrapped pipeline stages",
     design_ref="DESIGN.md 4.10, 5 (C14)", engine="inputmode"),
+ "C07": dict(
+    text=("Registration.tla is an integer model (unit: half a fine bin) of the frequency bookkeeping: coarse-channel "
+          "centres, recorded channel range, OBSFREQ/OBSBW/CHAN_BW, fine bins of an L-point shifted FFT; TLC checks "
+          "HeaderLocatesTone (the frequency the header assigns to the expected bin is within half a fine bin of the "
+          "tone, for every tone position on the half-bin grid of the recorded band), ParamsRoundTrip and ReducerShape "
+          "for branches 8/16, L 8/16, both orientations, every first channel and channel count. Each generated "
+          "configuration is a real recording (3 sample rates, 3 fch1, 1-2 pols, padded/unpadded header): the peak of a "
+          "harness-owned fine FFT must sit in TLC's channel/bin and the header-derived frequency must be within one "
+          "fine bin of the tone; OBSFREQ/CHAN_BW/OBSBW/TBIN must equal the model's; get_raw_params must reproduce "
+          "fch1/chan_bw/orientation; get_pfb_waterfall and get_waterfall_from_raw must have TLC's shape, peak column "
+          "and the values of consecutive integrations from the start; chirps of both signs must follow f_start + "
+          "drift*t segment by segment."),
+    note=("Trusted: TLC, the harness GUPPI parser, numpy FFT for peak finding (numeric projection outside TLC), tone "
+          "26 dB above noise. Excluded as in the statement: DC-straddling channel, channel centres; additionally "
+          "tones within half a fine bin of a coarse-channel edge (aliased by the critically sampled PFB)."),
+    technique="TLA+ model (TLC exhaustive) + spec-generated configurations recorded by the implementation, FFT peak projected onto the model's bins",
+    design_ref="DESIGN.md 4.12, 5 (C07)", engine="registration"),
 }
 
 NOT_YET = "check not built yet in this round (planned, see DESIGN.md 5); no claim is made"
